@@ -273,6 +273,8 @@ func ZZ_C25_VoteHandler() {
 	zzConsensusPool(db, 4)
 	src := zzsym.U64("src")
 	height := zzsym.U32("height")
+	height2 := zzsym.U32("height2") // height of the second subject (used at the end)
+	zzsym.Assume(height2 != height)
 	msg := &scom.MakeTxParam{TxHash: zzsym.Bytes("m.txhash", 2), CrossChainID: zzsym.Bytes("m.ccid", 4), FromContractAddress: zzsym.Bytes("m.from", 1),
 		ToChainID: zzsym.U64("m.to"), ToContractAddress: zzsym.Bytes("m.toaddr", 1), Method: "unlock", Args: zzsym.Bytes("m.args", 1)}
 	sink := common.NewZeroCopySink(nil)
@@ -341,8 +343,6 @@ func ZZ_C25_VoteHandler() {
 	}
 	zzsym.Cover("released")
 	// a different subject (other height) that carries the same cross-chain id: three validators vote it through
-	height2 := zzsym.U32("height2")
-	zzsym.Assume(height2 != height)
 	var err error
 	var p *scom.MakeTxParam
 	for i := 0; i < 3; i++ {
